@@ -68,6 +68,7 @@ type Contract struct {
 	NoInline     bool
 	Opaque       bool // treat body as unavailable (verify callers against contract only)
 	Lets         []LetDef
+	SetsPost     []LetDef // ghost := expr (evaluated in the post-state) after every call of this (interface) method
 	Sets         []LetDef // ghost := expr (evaluated in the pre-state) at every call site of this (interface) method
 	Counts       []string // ghost counters incremented at every call site of this (interface) method
 	PureVerdict  string // name of the logic function giving "first error result is nil" as a function of the parameters
@@ -143,7 +144,7 @@ func normKey(k string) string {
 var clauseKw = map[string]bool{
 	"func": true, "spec": true, "requires": true, "ensures": true, "modifies": true, "loop": true,
 	"panics-unless": true, "macro": true, "ghost": true, "axiom": true, "swallows": true,
-	"noinline": true, "opaque": true, "pure-verdict": true, "counts": true, "sets": true, "let": true, "letold": true, "smt": true, "lemma": true,
+	"noinline": true, "opaque": true, "pure-verdict": true, "counts": true, "sets": true, "sets-post": true, "let": true, "letold": true, "smt": true, "lemma": true,
 }
 
 type rawItem struct {
@@ -200,7 +201,7 @@ func stripComment(s string) string {
 }
 
 var hdrRe = regexp.MustCompile(`^(\(.*?\)\.[A-Za-z_0-9$]+(?:@\S+)?|[^\s(]+)\s*\(([^()]*)\)\s*(?:\(([^()]*)\))?$`)
-var inRepoHdrRe = regexp.MustCompile(`^(?:\(\s*([A-Za-z_0-9]*)\s*(\*?)\s*([A-Za-z_0-9]+)\s*\)\s*)?([A-Za-z_0-9$]+)\s*\(([^()]*)\)\s*(?:\(([^()]*)\))?$`)
+var inRepoHdrRe = regexp.MustCompile(`^(?:\(\s*([A-Za-z_0-9]*)\s*(\*?)\s*([A-Za-z_0-9]+(?:\[[^\]]*\])?)\s*\)\s*)?([A-Za-z_0-9$]+)\s*\(([^()]*)\)\s*(?:\(([^()]*)\))?$`)
 
 func splitNames(s string) []string {
 	var out []string
@@ -387,7 +388,7 @@ func (db *SpecDB) loadItems(items []rawItem, pkgPath string, trusted bool) {
 			if cur != nil {
 				cur.Swallows = append(cur.Swallows, strings.Fields(rest)[0])
 			}
-		case "sets":
+		case "sets", "sets-post":
 			if cur != nil {
 				j := strings.Index(rest, "=")
 				if j < 0 {
@@ -399,7 +400,11 @@ func (db *SpecDB) loadItems(items []rawItem, pkgPath string, trusted bool) {
 					fail(it, "%v", err)
 					continue
 				}
-				cur.Sets = append(cur.Sets, LetDef{Name: strings.TrimSpace(rest[:j]), E: e})
+				if kw == "sets-post" {
+					cur.SetsPost = append(cur.SetsPost, LetDef{Name: strings.TrimSpace(rest[:j]), E: e})
+				} else {
+					cur.Sets = append(cur.Sets, LetDef{Name: strings.TrimSpace(rest[:j]), E: e})
+				}
 			}
 		case "counts":
 			if cur != nil {
